@@ -341,6 +341,8 @@ def sym_binop(op, a, b):
                     else:
                         return Unknown("or of two dynamic bits")
                 res_bits = tuple(out)
+        if op in ("|", "^") and ab is not None and bb is not None and disjoint and ap is not None and bp is not None:
+            res_poly = p_add(ap, bp)        # no bit set in both operands: or / xor is addition
         if op == "+":
             if ap is not None and bp is not None:
                 res_poly = p_add(ap, bp)
